@@ -232,6 +232,15 @@ impl<'a> SemanticModel<'a> {
     { unimplemented!() }
 }
 
+impl<'a> SemanticModel<'a> {
+    /// semantic/mod.rs get_root_by_file_id: the root of the syntax tree the Vfs holds for the file — parsed from the text
+    /// the file's document pairs with its line index (unit c22_vfs: [C22.vfs.tree-is-parse-of-current-text])
+    #[verifier::external_body]
+    pub fn get_root_by_file_id(&self, file_id: FileId) -> (r: Option<LuaChunk>)
+        ensures r matches Some(root) ==> sp_tree(root) == sp_doc_of_file(self, file_id),
+    { unimplemented!() }
+}
+
 /// emmylua_code_analysis::LuaOperator (db_index/operator): opaque record; the two getters return stored fields
 #[verifier::external_body]
 pub struct LuaOperator { _p: () }
@@ -280,6 +289,7 @@ pub type LuaParamList = Syn;
 pub type LuaParamName = Syn;
 pub type LuaNameToken = Syn;
 pub type LuaSyntaxToken = Syn;
+pub type LuaChunk = Syn;
 /// emmylua_parser::LuaIndexKey (enum over the key node / token of an index expression): opaque
 #[verifier::external_body]
 pub struct LuaIndexKey { _p: () }
@@ -296,6 +306,19 @@ impl LuaIndexKey {
 pub proof fn axiom_tree_range(e: Syn)
     ensures sp_file_range(sp_tree(e), sp_range(e)),
 { }
+impl Clone for Syn {
+    /// rowan handles are reference-counted cursors: a clone denotes the same element
+    #[verifier::external_body]
+    fn clone(&self) -> (r: Syn) ensures r == *self { unimplemented!() }
+}
+/// emmylua_parser::LuaSyntaxId (kind + range of a node): opaque
+#[verifier::external_body]
+pub struct LuaSyntaxId { _p: () }
+impl LuaSyntaxId {
+    /// LuaSyntaxId::to_node_from_root: looks the node up in the tree under `root` — a node of that tree
+    #[verifier::external_body]
+    pub fn to_node_from_root(&self, root: &Syn) -> (r: Option<Syn>) ensures r matches Some(n) ==> sp_tree(n) == sp_tree(*root) { unimplemented!() }
+}
 impl Syn {
     #[verifier::external_body]
     pub fn text_range(&self) -> (r: TextRange) ensures r == sp_range(*self) { unimplemented!() }
@@ -312,6 +335,12 @@ impl Syn {
     /// LuaParamList::get_params (iterator over the child LuaParamName nodes, shimmed as the Vec of what it yields)
     #[verifier::external_body]
     pub fn get_params(&self) -> (r: Vec<Syn>) ensures forall|i: int| 0 <= i < r@.len() ==> sp_tree(#[trigger] r@[i]) == sp_tree(*self) { unimplemented!() }
+    /// LuaAstNode::syntax: the wrapped element (the wrapper IS the element here)
+    #[verifier::external_body]
+    pub fn syntax(&self) -> (r: &Syn) ensures *r == *self { unimplemented!() }
+    /// LuaAstNode::cast (e.g. LuaIndexExpr::cast): the node itself when its kind fits, else None
+    #[verifier::external_body]
+    pub fn cast(syntax: Syn) -> (r: Option<Syn>) ensures r matches Some(x) ==> x == syntax { unimplemented!() }
     #[verifier::external_body]
     pub fn is_dots(&self) -> (r: bool) { unimplemented!() }
     #[verifier::external_body]
@@ -373,6 +402,7 @@ impl Vfs {
 // ---------------------------------------------------------------------------------------------
 // extracted from /repo: the hand-built Locations
 // ---------------------------------------------------------------------------------------------
+//@@ get_override_lsp_location
 //@@ get_call_signature_param_location::locations
 //@@ set_meta_call_part::location
 //@@ build_index_expr_hint::location
